@@ -338,3 +338,41 @@ def sampling(tier, rng, rep):
                 if not np.all(np.abs(fp[j] - uj) <= 1e-6):
                     rep.fail("fixed_point_per_unit", f"unit {j}: {fp[j]} vs {uj}", inp)
             rep.case(key=(t, "fix"))
+        # composites of loxodromics whose eigenvalues come out of the eigen-solver in different orders (translation parameter
+        # above / below 1, conjugated or not), shapes of rank 1 and 2: fixed point, fixed point pair and axis unit by unit
+        shp = [(3,), (4,), (2, 2), (4, 1)][t % 4]
+        lox = []
+        for j in range(int(np.prod(shp))):
+            par = rng.uniform(1.5, 5.0) if (j + t) % 2 else 1.0 / rng.uniform(1.5, 5.0)
+            base = h.Isometry.standard_loxodromic(2, par)
+            if j % 3 == 1:      # conjugated by a rotation only (LAPACK then lists the small eigenvalue first)
+                C = h.Isometry.standard_rotation(rng.uniform(0.3, 2.8))
+                base = C @ base @ C.inv()
+            elif j % 3 == 2:
+                C = h.Isometry.standard_rotation(rng.uniform(0.3, 2.8)) @ h.Point((lambda w: w / np.linalg.norm(w) * rng.uniform(0.1, 0.6))(rng.normal(size=2)), model="klein").origin_to()
+                base = C @ base @ C.inv()
+            lox.append(base.proj_data)
+        L_ = np.array(lox).reshape(shp + (3, 3))
+        inpl = {"matrices": L_.tolist(), "shape": list(shp)}
+
+        def loxo():
+            compl = h.Isometry(L_.copy())
+            fpc = compl.fixed_point().coords("klein")
+            pair = compl.fixed_point_pair().proj_data
+            for idx in np.ndindex(*shp):
+                U = h.Isometry(L_[idx].copy())
+                if not np.all(np.abs(fpc[idx] - U.fixed_point().coords("klein")) <= 1e-6):
+                    rep.fail("fixed_point_per_unit", f"loxodromic unit {idx}: {fpc[idx]} vs {U.fixed_point().coords('klein')}", inpl); return
+                up = U.fixed_point_pair().proj_data
+                for r_ in range(2):
+                    cr = np.outer(pair[idx][r_], up[r_])
+                    if not np.all(np.abs(cr - cr.T) <= 1e-6 * max(1.0, np.max(np.abs(cr)))):
+                        rep.fail("fixed_point_pair_per_unit", f"loxodromic unit {idx}, point {r_}", inpl); return
+                # intrinsic: the reported fixed point is fixed by that unit's own matrix
+                x = np.concatenate([[1.0], fpc[idx]])
+                y = x @ L_[idx]
+                cr = np.outer(x, y)
+                if not np.all(np.abs(cr - cr.T) <= 1e-6 * max(1.0, np.max(np.abs(cr)))):
+                    rep.fail("fixed_point_per_unit", f"loxodromic unit {idx}: the reported point is not fixed by the unit's matrix", inpl); return
+        rep.attempt("fixed_point_runs", inpl, loxo)
+        rep.case(key=(t, "fixlox"), nontrivial=True)
